@@ -250,6 +250,9 @@ package parser
 //@ func ParseExprFrom$1
 //@   panics_if [repanic-non-bailout] true
 //@   ensures [errors-sorted] errSorted == 1
+//@ func ParseExprEx$1
+//@   panics_if [repanic-non-bailout] true
+//@   ensures [errors-sorted] errSorted == 1
 //@
 //@ func (*parser).errorExpected
 //@   requires p != nil && p.file != nil
